@@ -262,31 +262,29 @@ impl SecondaryTransaction {
 
         let final_iter = if iters.len() == 1 {
             iters.pop().unwrap().into()
-        } else if opts.is_sorted {
+        } else {
+            // The optimizer relies on scans of this engine being ordered by primary key (see
+            // `StorageImpl::table_is_sorted_by_primary_key`), so RowSets are merged by sort key
+            // whenever all key columns are scanned, not only when a sorted scan is requested.
             let sort_keys = find_sort_key_id(&self.table.columns);
-            if !sort_keys.is_empty() {
-                let real_col_idx = sort_keys
-                    .iter()
-                    .map(|id| {
-                        col_idx
-                            .iter()
-                            .position(|x| match x {
-                                StorageColumnRef::Idx(y) => *y as usize == *id,
-                                _ => false,
-                            })
-                            .expect("sorting key not in column list")
+            let real_col_idx = sort_keys
+                .iter()
+                .map(|id| {
+                    col_idx.iter().position(|x| match x {
+                        StorageColumnRef::Idx(y) => *y as usize == *id,
+                        _ => false,
                     })
-                    .collect_vec();
-                MergeIterator::new(
+                })
+                .collect::<Option<Vec<_>>>();
+            match real_col_idx {
+                Some(real_col_idx) if !sort_keys.is_empty() => MergeIterator::new(
                     iters.into_iter().map(|iter| iter.into()).collect_vec(),
                     real_col_idx,
                 )
-                .into()
-            } else {
-                ConcatIterator::new(iters).into()
+                .into(),
+                None if opts.is_sorted => panic!("sorting key not in column list"),
+                _ => ConcatIterator::new(iters).into(),
             }
-        } else {
-            ConcatIterator::new(iters).into()
         };
 
         Ok(SecondaryTableTxnIterator::new(final_iter))
